@@ -9,7 +9,7 @@ if ! git -C $d apply /verif/seeded/$s/patch.diff; then
   echo "APPLY FAILED" > $log; git -C /repo worktree remove --force $d; rm -rf $d; exit 2
 fi
 cd /verif
-VERIF_REPO=$d VERIF_EVIDENCE_DIR=/var/tmp/seedrun-evidence-$s-$$ timeout 1800 ./run.py $p > $log 2>&1
+VERIF_REPO=$d VERIF_EVIDENCE_DIR=/var/tmp/seedrun-evidence-$s-$$ timeout 2700 ./run.py $p > $log 2>&1
 echo "rc=$?" >> $log
 /verif/tools/record_seedrun.py $s $p $log
 git -C /repo worktree remove --force $d; rm -rf $d /var/tmp/seedrun-evidence-$s-$$
